@@ -27,7 +27,7 @@ use std::time::Duration;
 pub static INFO: PropInfo = PropInfo {
     id: "C17",
     level: "fault_enumeration",
-    rule: "two kinds of executions. (a) TAMPER (enumerated; exhaustive=true refers to this: for every sample datagram ALL single-bit positions and ALL truncation lengths 0..len-1 are presented): per run one genuine sample of every datagram kind (request, challenge, response, keep-alive both directions, payload both directions with a seeded length 0..1300, denied, disconnect both directions) is captured from a live handshake/session and every modification is presented to the endpoint in exactly the state in which the genuine datagram is accepted (proved afterwards by presenting the genuine one and seeing its effect); each must produce no result and leave the observable snapshot identical (server: client ids, addresses, user data, time since last packet, half-open set; client: state, reason, time since last packet); for the unsealed request the prefix byte's unused high nibble is excluded. Every sealed sample must also fail to open under another key and under another protocol id (crate codec) and a request must be ignored by servers with another private key / protocol id. Token: every single-bit flip of the 1024 sealed bytes, the protocol id and the expiry of a serialized ConnectToken goes through ConnectToken::read -> NetcodeClient::new -> update -> server.process_packet and through the private-token decoder and must yield neither a decoded token nor a reply nor a half-open entry. (b) NONCE TABLE: honest multi-client histories against one server (1-3 slots, 3-7 clients, seeded loss and duplication so that requests are retried and re-challenged, denials on a full server, keep-alives, payloads both ways, disconnects by either side, reconnects with fresh tokens, fail-over to a second server address): every datagram returned by any NetcodeServer / NetcodeClient call is attributed to a key by opening it with the token keys the harness minted, and entered as (key, sequence from the prefix) -> bytes; two different byte strings under one (key, sequence) refute the property, as do two different challenge blobs with one token_sequence. One evaluation = one presented modification (a) or one recorded datagram (b); non-trivial = oracle evaluated on it; distinct = (sample hash, modification) resp. (history seed, datagram hash).",
+    rule: "two kinds of executions. (a) TAMPER (enumerated; exhaustive=true refers to this: for every sample datagram ALL single-bit positions and ALL truncation lengths 0..len-1 are presented): per run one genuine sample of every datagram kind (request, challenge, response, keep-alive both directions, payload both directions with a seeded length 0..1300, denied, disconnect both directions) is captured from a live handshake/session and every modification is presented to the endpoint in exactly the state in which the genuine datagram is accepted (proved afterwards by presenting the genuine one and seeing its effect); each must produce no result and leave the observable snapshot identical (server: client ids, addresses, user data, time since last packet, half-open set; client: state, reason, time since last packet); for the unsealed request the prefix byte's unused high nibble is excluded. Every sealed sample must also fail to open under another key and under another protocol id (crate codec) and a request must be ignored by servers with another private key / protocol id. Token: every single-bit flip of the 1024 sealed bytes, the protocol id and the expiry of a serialized ConnectToken goes through ConnectToken::read -> NetcodeClient::new -> update -> server.process_packet and through the private-token decoder and must yield neither a decoded token nor a reply nor a half-open entry. (b) NONCE TABLE: honest multi-client histories against one server (1-3 slots, 3-7 clients, seeded loss and duplication so that requests are retried and re-challenged, denials on a full server, keep-alives, payloads both ways, disconnects by either side, reconnects with fresh tokens, fail-over to a second server address, tokens listing two addresses of the same server so that a client denied or unanswered at the first is admitted at the second with the same token - the server side of a token stops being recorded once the server opens a second session for it): every datagram returned by any NetcodeServer / NetcodeClient call is attributed to a key by opening it with the token keys the harness minted, and entered as (key, sequence from the prefix) -> bytes; two different byte strings under one (key, sequence) refute the property, as do two different challenge blobs with one token_sequence. One evaluation = one presented modification (a) or one recorded datagram (b); non-trivial = oracle evaluated on it; distinct = (sample hash, modification) resp. (history seed, datagram hash).",
     assumptions: &[
         "ChaCha20-Poly1305 / XChaCha20-Poly1305 themselves are not under test; the nonce is assumed to be the sequence number announced in the prefix (that it really is bound is what the bit flips of the sequence bytes test)",
         "one connect token = one connection attempt and the session that follows; reconnects use fresh tokens (reuse of a token for a second session is outside the statement)",
@@ -53,6 +53,7 @@ pub static INFO: PropInfo = PropInfo {
         ("hist.request_retries", 20),
         ("hist.rechallenges", 20),
         ("hist.denied", 10),
+        ("hist.admitted_after_denial_same_token", 5),
         ("hist.keepalive_srv", 200),
         ("hist.keepalive_cli", 200),
         ("hist.payload_srv", 200),
@@ -619,6 +620,10 @@ struct Party {
     requests: u32,
     was_connected: bool,
     reconnect_of: bool,
+    /// sessions the server opened for this token; a second one restarts the counter under the same keys
+    /// (token reuse, outside the statement): the server side of this party is no longer recorded then
+    server_sessions: u32,
+    denied_seen: bool,
 }
 
 fn domain(server: bool, p: &OPacket) -> &'static str {
@@ -678,8 +683,12 @@ impl Table {
 }
 
 fn history_run(ctx: &Ctx, out: &mut Outcome, run_seed: u64, r: &mut Rng) {
-    let max_clients = r.urange(1, 3);
-    let two_addrs = r.chance(1, 2);
+    // "race": a one-slot server with two addresses and clients that arrive together holding tokens for both addresses:
+    // both are challenged while a slot is free, one response is admitted, the other is denied at the response step,
+    // the slot frees soon and the denied client is admitted at the second address with the same token
+    let race = r.chance(1, 4);
+    let max_clients = if race { 1 } else { r.urange(1, 3) };
+    let two_addrs = race || r.chance(1, 2);
     let mut srv = new_srv(r, max_clients, if two_addrs { 2 } else { 1 }, false);
     let protocol = srv.protocol_id;
     let dead_addr = nsim::addr4(222, 1, 4000);
@@ -720,7 +729,7 @@ fn history_run(ctx: &Ctx, out: &mut Outcome, run_seed: u64, r: &mut Rng) {
 
     for tick in 0..ticks {
         // new parties (fresh token each; sometimes the id / address of a finished one: a reconnect)
-        if parties.len() < n_parties_max && (tick == 0 || r.chance(1, 6)) {
+        while parties.len() < n_parties_max && (tick == 0 || r.chance(1, 6)) {
             let n = parties.len();
             let (id, addr, recon) = if !dead_ids.is_empty() && r.chance(1, 2) {
                 let (id, a) = dead_ids.remove(0);
@@ -728,21 +737,31 @@ fn history_run(ctx: &Ctx, out: &mut Outcome, run_seed: u64, r: &mut Rng) {
             } else {
                 (2000 + n as u64, client_addr(r, 300 + n as u64), false)
             };
-            let failover = two_addrs && r.chance(1, 3);
-            // every token names exactly one address at which this server listens: a client that fails over to a
-            // second address of the *same* server would start a second connection attempt with the same token
-            // (a second session under the same keys), which is outside the statement
-            let addrs: Vec<SocketAddr> = if failover { vec![dead_addr, srv.addrs[1]] } else { vec![srv.addrs[r.usize_below(srv.addrs.len())]] };
-            let timeout = if failover { 1 } else { *r.pick(&[2i32, 5, 15]) };
+            let failover = two_addrs && !race && r.chance(1, 3);
+            // a second *session* under the same token keys restarts the counter (token reuse, outside the statement)
+            // some tokens list both addresses of this server: a client whose attempt at the first one ended without a
+            // session (denied, lost replies) tries the second one with the same token; only one session may follow
+            let both = two_addrs && !failover && (race || r.chance(1, 2));
+            let addrs: Vec<SocketAddr> = if failover {
+                vec![dead_addr, srv.addrs[1]]
+            } else if both {
+                vec![srv.addrs[0], srv.addrs[1], srv.addrs[0], srv.addrs[1]]
+            } else {
+                vec![srv.addrs[r.usize_below(srv.addrs.len())]]
+            };
+            let timeout = if failover { 1 } else if both { *r.pick(&[1i32, 2]) } else { *r.pick(&[2i32, 5, 15]) };
             let m = nsim::mint(r, srv.now.as_secs(), protocol, 600, id, timeout, &addrs, None, &srv.key);
             match Cli::new(srv.now, m, addr) {
                 Ok(cli) => {
                     if recon {
                         out.count("hist.reconnects");
                     }
-                    parties.push(Party { cli, alive: true, requests: 0, was_connected: false, reconnect_of: recon })
+                    parties.push(Party { cli, alive: true, requests: 0, was_connected: false, reconnect_of: recon, server_sessions: 0, denied_seen: false })
                 }
                 Err(e) => return out.inconclusive(&format!("C17 history: client setup: {e}")),
+            }
+            if !(race && tick == 0 && parties.len() < 3) {
+                break;
             }
         }
         srv.update(dt);
@@ -841,7 +860,7 @@ fn history_run(ctx: &Ctx, out: &mut Outcome, run_seed: u64, r: &mut Rng) {
                     server_out.push((addr, b));
                 }
             }
-            if srv.s.is_client_connected(id) && r.chance(1, 40) {
+            if srv.s.is_client_connected(id) && r.chance(1, if race { 5 } else { 40 }) {
                 if let SResult::Disconnected { addr, bytes: Some(b), .. } = srv.disconnect(id) {
                     out.count("hist.disconnect_srv");
                     server_out.push((addr, b));
@@ -853,6 +872,15 @@ fn history_run(ctx: &Ctx, out: &mut Outcome, run_seed: u64, r: &mut Rng) {
         for (i, b) in c2s.drain(..) {
             let from = parties[i].cli.addr;
             let res = srv.process(from, &b);
+            if matches!(res, SResult::Connected { .. }) {
+                parties[i].server_sessions += 1;
+                if parties[i].server_sessions == 2 {
+                    out.count("hist.second_session_same_token_not_recorded");
+                }
+                if parties[i].denied_seen && parties[i].server_sessions == 1 {
+                    out.count("hist.admitted_after_denial_same_token");
+                }
+            }
             if let Some((addr, bytes)) = res.outgoing() {
                 server_out.push((addr, bytes.clone()));
             }
@@ -871,7 +899,10 @@ fn history_run(ctx: &Ctx, out: &mut Outcome, run_seed: u64, r: &mut Rng) {
                     }
                     match &pk {
                         OPacket::KeepAlive { .. } => out.count("hist.keepalive_srv"),
-                        OPacket::Denied => out.count("hist.denied"),
+                        OPacket::Denied => {
+                            out.count("hist.denied");
+                            parties[i].denied_seen = true;
+                        }
                         OPacket::Challenge { token_sequence, token_data } => {
                             out.count("hist.challenge_blobs");
                             let n = challenges_per_party.entry(i).or_insert(0u32);
@@ -895,6 +926,9 @@ fn history_run(ctx: &Ctx, out: &mut Outcome, run_seed: u64, r: &mut Rng) {
                             }
                         }
                         _ => {}
+                    }
+                    if parties[i].server_sessions >= 2 {
+                        break;
                     }
                     if let Some(v) = table.enter(out, i, true, seq, &pk, &b, tick) {
                         violation!(v);
